@@ -13,6 +13,7 @@ import (
 	"fmt"
 	"math"
 	"math/rand/v2"
+	"os"
 	"regexp"
 	"runtime"
 	"sort"
@@ -115,6 +116,7 @@ type sideState struct {
 	ovfDone            atomic.Int64
 	ovfConfirmed       atomic.Int64
 	ovfGaveUp          atomic.Int64
+	ovfCarry           atomic.Int64
 	recvApp            atomic.Int64
 	lowSeen            atomic.Int64
 	finSeen            atomic.Bool
@@ -343,51 +345,74 @@ func (c *conn) tap(side int) *ssh.VerifTap {
 	}
 }
 
-var debugHold = true
+var debugHold = os.Getenv("VERIF_DEBUG") != ""
 
 var writerFn = [2]string{"writerLoopC", "writerLoopS"}
 
-// parkedInWritePacket reports whether a harness writer of this side is parked
+// parkedInWritePacket counts the harness writers of this side that are parked
 // on the condition variable inside handshakeTransport.writePacket.
-func (c *conn) parkedInWritePacket(side int) bool {
+func (c *conn) parkedInWritePacket(side int) int {
 	c.dumps.Add(1)
+	n := 0
 	for _, g := range mon.ParseDump(mon.GoroutineDump()) {
 		if g.State == "sync.Cond.Wait" && g.Has("handshakeTransport).writePacket") && g.Has(writerFn[side]) {
-			return true
+			n++
 		}
 	}
-	return false
+	return n
 }
 
 // ovfHold keeps the key exchange of this side open (the caller is kexLoop,
-// inside enterKeyExchange) until the side's writers have filled the pending
-// queue (64) and one more call is parked in the blocking branch.
+// inside enterKeyExchange) until the blocking branch of writePacket is
+// occupied: either the side's writers have filled the pending queue (64) and
+// one more call is parked on the condition variable, or every writer of the
+// side is parked there (woken at the end of the previous exchange, they lost
+// the race for the mutex against this exchange's KEXINIT and wait again; the
+// queue cannot fill then).
 func (c *conn) ovfHold(side int, point uint32) {
 	ss := &c.s[side]
 	if ss.ovfArm.Load() != point {
 		return
 	}
 	us := uint8(side)
+	W := int64(c.p.W[side])
 	c.holdsEngaged.Add(1)
 	c.log.add(event{kind: evHoldBegin, side: us, aux: point})
-	ok := c.holdWait(func() bool {
+	full := func() bool {
 		return ss.retOK.Load()-ss.pushedApp.Load() >= 64 && ss.started.Load() > ss.returned.Load()
-	})
-	confirmed := false
-	for try := 0; ok && try < 20000; try++ {
-		if c.parkedInWritePacket(side) {
-			confirmed = true
+	}
+	allIn := func() bool { return ss.started.Load()-ss.returned.Load() >= W }
+	confirmed, carry := false, false
+	tries := 0
+loop:
+	for tries < 40000 {
+		if !c.holdWait(func() bool { return full() || allIn() }) {
 			break
 		}
-		select {
-		case <-c.abort:
-			ok = false
-		default:
-		}
-		if try < 10 {
-			runtime.Gosched()
-		} else {
-			time.Sleep(50 * time.Microsecond)
+		for full() || allIn() {
+			tries++
+			n := c.parkedInWritePacket(side)
+			if n >= 1 && full() {
+				confirmed = true
+				break loop
+			}
+			if int64(n) >= W {
+				confirmed, carry = true, true
+				break loop
+			}
+			select {
+			case <-c.abort:
+				break loop
+			default:
+			}
+			if tries < 10 {
+				runtime.Gosched()
+			} else {
+				time.Sleep(50 * time.Microsecond)
+			}
+			if tries >= 40000 {
+				break loop
+			}
 		}
 	}
 	c.log.add(event{kind: evHoldEnd, side: us, aux: point, err: !confirmed})
@@ -396,12 +421,16 @@ func (c *conn) ovfHold(side int, point uint32) {
 	if ss.postWanted.Swap(false) {
 		ss.postArm.Store(true)
 	}
-	if confirmed {
+	switch {
+	case carry:
+		ss.ovfCarry.Add(1)
 		ss.ovfConfirmed.Add(1)
-	} else {
+	case confirmed:
+		ss.ovfConfirmed.Add(1)
+	default:
 		ss.ovfGaveUp.Add(1)
 		if debugHold {
-			fmt.Printf("DEBUG gave up: side=%d point=%d ok=%v retOK=%d pushed=%d started=%d returned=%d stop=%v closing=%v\n%s\n", side, point, ok,
+			fmt.Printf("DEBUG gave up: side=%d point=%d retOK=%d pushed=%d started=%d returned=%d stop=%v closing=%v\n%s\n", side, point,
 				ss.retOK.Load(), ss.pushedApp.Load(), ss.started.Load(), ss.returned.Load(), c.stop.Load(), c.closing.Load(), mon.GoroutineDump())
 		}
 	}
@@ -471,6 +500,7 @@ func (c *conn) writerLoop(side, w int, r *rand.Rand) {
 		p := buildApp(buf, n, appTypes[r.IntN(len(appTypes))], side, w, ctr)
 		c.log.add(event{kind: evWStart, side: us, wid: uw, ctr: ctr, n: uint32(n)})
 		ss.started.Add(1)
+		c.nt.note() // the overflow hold waits for "64 queued and one more call in flight"
 		err := raw.WritePacket(p)
 		ss.returned.Add(1)
 		if err == nil {
@@ -607,6 +637,9 @@ func (c *conn) awaitNudging(what string, who int, pred func() bool) (ok bool, h 
 			continue
 		case <-t.C:
 		}
+		if debugHold {
+			fmt.Printf("DEBUG look: waiting for %s; clock %d (last %d) holds=%d\n%s\n", what, c.log.clock.Load(), lastClock, c.holdsEngaged.Load(), mon.GoroutineDump())
+		}
 		if now := c.log.clock.Load(); now != lastClock {
 			// events were logged since the last look: not stuck
 			lastClock = now
@@ -701,6 +734,7 @@ type outcome struct {
 	c            *conn
 	ovfConfirmed [2]int64
 	ovfGaveUp    [2]int64
+	ovfCarry     [2]int64
 	simulForced  int64
 	holdAborted  bool
 	duplexBlocks [2]int64
@@ -1016,6 +1050,7 @@ func runConn(p *params, seed uint64, r *rand.Rand) *outcome {
 	for s := 0; s < 2; s++ {
 		out.ovfConfirmed[s] = c.s[s].ovfConfirmed.Load()
 		out.ovfGaveUp[s] = c.s[s].ovfGaveUp.Load()
+		out.ovfCarry[s] = c.s[s].ovfCarry.Load()
 	}
 	out.simulForced = c.simulForced.Load()
 	out.duplexBlocks = [2]int64{a.out.blockedWrites, b.out.blockedWrites}
